@@ -274,6 +274,11 @@ func vfC05Scenarios(thorough bool) []*vfGWScenario {
 		mk(router+"-retry", router, 1, nil, []string{"conn:a", "conn:b"}, []string{"gate:a", "ungate:a", "join:t", "leave:t", "relay:t", "unrelay:t", "join:u", "leave:u", "adv:1100", "disc:a", "conn:a"})
 		// the jitter of a scheduled retry (1..1000 ms) is the explorer's: both ends, per announcing event
 		out[len(out)-1].DevKinds, out[len(out)-1].DevMax = []string{"jitter"}, 1
+		// the same from a state where a's writer is stuck and its queue is already full, so that the very next
+		// announcements are the ones that have to be retried (and can overtake one another)
+		mk(router+"-retry-full", router, 1, nil, []string{"conn:a", "conn:b", "join:t", "gate:a", "join:u", "leave:u"},
+			[]string{"ungate:a", "join:t", "leave:t", "relay:t", "unrelay:t", "join:u", "leave:u", "adv:1100", "adv:400"})
+		out[len(out)-1].DevKinds, out[len(out)-1].DevMax = []string{"jitter"}, 1
 	}
 	// a stream goroutine descheduled between two hand-offs to the event loop (named yield points, one hold at a time)
 	for _, router := range []string{"flood", "gossip"} {
